@@ -128,3 +128,68 @@ func VH_C18_timed(n int) {
 	vAssert(!panicked, "C18.no_panic")
 	vReach("C18.timed_history_done")
 }
+
+// VH_C18_race(bound): pre-emptive interleavings (context bound `bound`) of
+// Success() on one goroutine with the retry timer's callback on another.
+func VH_C18_race(bound int) {
+	o := &vC18Obs{}
+	var t *RetryTransaction
+	t = NewRetryTransaction(context.Background(), time.Hour, 2,
+		func(data interface{}) error {
+			select {
+			case <-t.Done():
+				o.calls += 100 // a retry callback that starts after Done has closed
+			default:
+				o.calls++
+			}
+			return nil
+		},
+		func() { o.finals++ })
+	t.Proceed(1, "x")
+	vRunUntilIdle()
+	vPreempt(bound)
+	d1, d2 := false, false
+	seen := -1
+	vGo(func() { <-t.Done(); seen = o.finals }) // a waiter woken by Done
+	vGo(func() { t.Success(); d1 = true })
+	vGo(func() { t.timeout(); d2 = true })
+	vRunUntilIdle()
+	vPreempt(0)
+	vAssume(vAnd(d1, d2))
+	vReach("C18.race_done")
+	vAssert(seen == 1, "C18.race_finally_ran_when_done_observed")
+	vAssert(o.finals == 1, "C18.race_finally_exactly_once")
+	vAssert(o.calls < 100, "C18.race_no_retry_callback_after_done")
+	vAssert(t.Err() == nil, "C18.race_err_is_the_first_result")
+	vAssert(vRaces() == 0, "C18.race_free")
+}
+
+// VH_C18_timed_race(bound, zero): pre-emptive interleavings of a
+// TimedTransaction's timer callback with Success(); zero = 1: the timeout is 0,
+// so the timer is due before the constructor has stored it.
+func VH_C18_timed_race(bound, zero int) {
+	o := &vC18Obs{}
+	d := time.Hour
+	if zero == 1 {
+		d = 0
+	}
+	var t *TimedTransaction
+	vOnTaskPanic("C18.race_no_panic")
+	vPreempt(bound)
+	panicked := vPanics(func() {
+		t = NewTimedTransaction(context.Background(), d, func() { o.finals++ })
+		done := false
+		vGo(func() { t.Success(); done = true })
+		if zero == 0 {
+			vGo(func() { t.Fail(ErrTimeout) }) // what the timer callback does
+		}
+		vRunUntilIdle()
+		vAssume(done)
+	})
+	vPreempt(0)
+	vAssert(!panicked, "C18.race_no_panic")
+	if !panicked {
+		vReach("C18.timed_race_done")
+		vAssert(o.finals == 1, "C18.race_finally_exactly_once")
+	}
+}
